@@ -80,8 +80,8 @@ def transforms(cfg, grid, which):
   return (lambda x: x * fac), (lambda x: -x * fac)
 
 
-def task_pe(ctx, cfg, levels, lname, kind, which, stepper=None):
-  from dinosaur import primitive_equations as pe, time_integration as ti
+def task_pe(ctx, cfg, levels, lname, kind, which, stepper=None, option='default'):
+  from dinosaur import primitive_equations as pe, time_integration as ti, sigma_coordinates as sc
   coords = models.make_coords(cfg, levels)
   grid = coords.horizontal
   K = coords.vertical.layers
@@ -93,7 +93,8 @@ def task_pe(ctx, cfg, levels, lname, kind, which, stepper=None):
   oro_t = np.asarray(Ts(jnp.asarray(oro)))
   tref = np.linspace(1.0, 1.4, K)
   cls = pe.MoistPrimitiveEquations if kind == 'moist' else pe.PrimitiveEquations
-  eq = cls(tref, oro, coords, specs); eq_t = cls(tref, oro_t, coords, specs)
+  okw = {'default': {}, 'upwind': dict(vertical_advection=sc.upwind_vertical_advection), 'sparse': dict(vertical_matmul_method='sparse')}[option]
+  eq = cls(tref, oro, coords, specs, **okw); eq_t = cls(tref, oro_t, coords, specs, **okw)
   ctx.encoded(cls.explicit_terms, cls.implicit_terms, cls.implicit_inverse, pe.compute_diagnostic_state)
   tracers = ['specific_humidity'] if kind == 'moist' else ['passive']
   sp = Space(bits=10)
@@ -110,7 +111,7 @@ def task_pe(ctx, cfg, levels, lname, kind, which, stepper=None):
 
   def tx(ls):
     return (Tp(ls[0]),) + tuple(Ts(x) for x in ls[1:])
-  conf = dict(grid=grids.cfg_name(cfg), levels=lname, kind=kind, transform=which)
+  conf = dict(grid=grids.cfg_name(cfg), levels=lname, kind=kind, transform=which, **({'option': option} if option != 'default' else {}))
   if stepper is None:
     def both(*ls):
       s = mk(*ls); st = mk(*tx(ls))
@@ -211,12 +212,14 @@ def make_tasks(tier, seed):
   cfge = dict(M=3, L=4, nlon=8, nlat=8, spacing='equiangular')
   tasks = []
 
-  def add(c, ln, kind, which, stepper=None):
-    tasks.append(dict(name=f"pe-{kind}-{grids.cfg_name(c)}-{ln}-{which}" + (f'-{stepper}' if stepper else ''), fn='task_pe',
-                      kw=dict(cfg=c, levels=LS[ln].tolist(), lname=ln, kind=kind, which=which, stepper=stepper)))
+  def add(c, ln, kind, which, stepper=None, option='default'):
+    tasks.append(dict(name=f"pe-{kind}-{grids.cfg_name(c)}-{ln}-{which}" + (f'-{stepper}' if stepper else '') + (f'-{option}' if option != 'default' else ''), fn='task_pe',
+                      kw=dict(cfg=c, levels=LS[ln].tolist(), lname=ln, kind=kind, which=which, stepper=stepper, option=option)))
   add(cfg, 'dy2', 'dry', 'rot1'); add(cfg, 'dy2', 'dry', 'mirror'); add(cfgf, 'dy2', 'dry', 'rot2'); add(cfgf, 'eq2', 'dry', 'mirror')
   add(cfg, 'dy2', 'moist', 'rot7'); add(cfg, 'dy2', 'moist', 'mirror')
   add(cfge, 'dy2', 'dry', 'rot3')
+  # non-default options: upwind vertical advection (kinks: relu atoms), sparse vertical matmul
+  add(cfg, 'dy3', 'dry', 'mirror', option='upwind'); add(cfg, 'dy2', 'dry', 'rot3', option='upwind'); add(cfg, 'dy2', 'dry', 'mirror', option='sparse')
   add(cfg, 'dy2', 'dry', 'rot1', 'euler'); add(cfg, 'dy2', 'dry', 'mirror', 'leapfrog')
   # tight odd longitude grids (longitude_nodes == 2 M - 1: the real Fourier basis is exactly complete on the nodes), both implementations
   cfgs = dict(M=3, L=4, nlon=9, nlat=5, impl='fast', base=1, stacked=True)          # stacked Fourier transforms (automatic for 129..256 wavenumbers)
